@@ -1166,12 +1166,21 @@ def run_limit(repo, seed, n_pairs, n_states, budget_s):
   for mi in range(n_pairs):
     if time.time() - t0 > budget_s:
       break
+    orth = True
     if mi == 0:
       xml, types = three_hinge_xml(rng), '33(right+left-handed)'
       st['three_hinge_pairs'] += 1
     else:
-      xml, meta = modelgen.gen_model(rng, limits=0.8, actuators=(0, 2), n_links=(1, 4), orthogonal=(mi % 2 == 1))
-      types = meta['link_types'] + (':orth' if mi % 2 == 1 else '')
+      orth = mi % 3 != 0
+      xml, meta = modelgen.gen_model(rng, limits=0.8, actuators=(0, 2), n_links=(1, 4), orthogonal=orth)
+      types = meta['link_types'] + (':orth' if orth else ':free-axes(generalized only)')
+    # the spring and positional pipelines measure the coordinates of a multi-dof link by projecting on its axes
+    # (`dof.motion.vel @ j.pos`, Euler angles of `axis_angle_ang`): for NON-orthogonal stacked axes these are not q
+    # (two slides with a0.a1 = 0.69: q0 = -0.78 inside [-1.43, 0.50] is measured as -1.49), so "q inside the range"
+    # says nothing about the coordinate the limit acts on.  Such models are compared in the generalized pipeline
+    # only (which reads q itself); recorded as an observation in notes/C06.md.
+    multi = any(t in '23' for t in mjcf.loads(xml).link_types)
+    pipes = PIPELINES if (orth or not multi) else ('generalized',)
     sysm = mjcf.loads(xml)
     if sysm.dof.limit is None:
       continue
@@ -1179,7 +1188,7 @@ def run_limit(repo, seed, n_pairs, n_states, budget_s):
     for si in range(n_states):
       q, qd = state_inside(rng, sysm, qd_range=0.3)
       act = rng.uniform(-1, 1, size=sysm.act_size())
-      for name in PIPELINES:
+      for name in pipes:
         base = dict(clause='limit', pipeline=name, xml=xml, q=q.tolist(), qd=qd.tolist(), act=act.tolist())
         f, info = _guard(lambda: check_limit_case(xml, q, qd, act, name), f'limit:{name}', base)
         if info.get('skipped'):
